@@ -305,7 +305,8 @@ def work(case):
     # its value on an untouched extraction (one fresh extraction per observer) is the reference; two more extractions are walked by all
     # observers, one in list order and one in reverse, and every value must equal the reference.  Only for inputs that are cheap to extract.
     out["order_pairs"] = 0
-    if case.get("order_walks", True) and time.process_time() - t_cpu < 1.5:
+    repeat_differs = any(p_["cmp"] == "same-process-repeat" for p_ in out["problems"])     # then values of different extractions cannot be compared at all
+    if case.get("order_walks", True) and not repeat_differs and time.process_time() - t_cpu < 1.5:
         try:
             names = [n for n in dict.fromkeys(OBSERVERS)]
             t1 = time.process_time()
@@ -476,8 +477,14 @@ def main(run):
                 fmt = src[1] if src[0] == "gen" else c["kind"]
             mutated = bool(c["recipe"].get("op"))
         seen = set()
+        risky = ""
+        if c["kind"] == "seq":
+            feats = {iso.feature(st[1]["src"], st[0]) for st in c["steps"] if iso.is_iso(st[1]["src"])}
+            risky = "+".join(sorted(f for f in feats if f in iso.RISKY_FEATURES))
+        elif feat in iso.RISKY_FEATURES:
+            risky = feat
         for cmp_, field, pfmt in sorted(problems.get(cid, ()), key=str):
-            key = f"C06:{pfmt or fmt}:{cmp_}:{field}"
+            key = f"C06:{pfmt or fmt}{'+' + risky if risky else ''}:{cmp_}:{field}"
             seen.add(key)
             what = f"{fmt} ({feat}{', mutated ' + c['recipe']['op'] if mutated else ''}, {src}): {cmp_}: {field} differs"
             if (cid, cmp_, field, pfmt) in notes:
